@@ -3,18 +3,25 @@
 (* rankers Alpha -> Ranks (incl. constant and non-injective ones), with the scan  *)
 (* cap scaled to PAIRCAP; with_indices for every (a, b) in 0..MaxN+1 squared.     *)
 EXTENDS Pair, TLC, Json
-CONSTANTS Alpha, MaxN, Ranks, Emit
-VARIABLES n, rank, done
-Init == n \in Seqs(Alpha, 0, MaxN) /\ rank \in [Alpha -> Ranks] /\ done = FALSE
-Next == ~done /\ done' = TRUE /\ UNCHANGED <<n, rank>>
-P == PR_WithRanker(n, rank)
+CONSTANTS Alpha, MaxN, Ranks, Emit,
+          LongLens   \* {}: all needles 0..MaxN over Alpha; otherwise: needles of these lengths that are all 0 except one or two 1s placed around the cap
+LongIdx == <<0, 1, 253, 254, 255>>
+VARIABLES n, rank, done, sel
+Init == /\ IF LongLens = {} THEN n \in Seqs(Alpha, 0, MaxN)
+           ELSE \E L \in LongLens : \E p1 \in (PAIRCAP - 3)..(PAIRCAP + 3) : \E p2 \in {0, 1, PAIRCAP - 2, PAIRCAP, PAIRCAP + 1, L} :
+                  n = [i \in 1..L |-> IF i = p1 \/ i = p2 THEN 1 ELSE 0]
+        /\ rank \in [Alpha -> Ranks] /\ done = FALSE /\ sel = PR_None
+Next == ~done /\ done' = TRUE /\ sel' = PR_WithRanker(n, rank) /\ UNCHANGED <<n, rank>>   \* the selection is evaluated once, in a worker
+P == sel
 SelectionValid == done => PR_Valid(n, P)
 \* the first offset is a position of a byte of minimal rank among the scanned prefix
 RarestFirst == (done /\ ~P.none) =>
    \A k \in 0..Min2(Len(n), PAIRCAP) - 1 : rank[At(n, P.i1)] <= rank[At(n, k)]
-IndicesExact == done => \A a, b \in 0..MaxN + 1 : (~PR_WithIndices(n, a, b).none) <=> PR_IndicesAccepts(n, a, b)
-Vector == [m |-> "pair", needle |-> n, rank |-> [k \in 1..Cardinality(Alpha) |-> rank[k - 1]], none |-> P.none, i1 |-> P.i1, i2 |-> P.i2,
-           acc |-> [k \in 1..(MaxN + 2) * (MaxN + 2) |->
-                     LET a == (k - 1) \div (MaxN + 2)  b == (k - 1) % (MaxN + 2) IN <<a, b, PR_IndicesAccepts(n, a, b)>>]]
+IndicesExact == (done /\ LongLens = {}) => \A a, b \in 0..MaxN + 1 : (~PR_WithIndices(n, a, b).none) <=> PR_IndicesAccepts(n, a, b)
+Vector == [m |-> "pair", needle |-> n, rank |-> [k \in 1..Cardinality(Alpha) |-> rank[k - 1]], none |-> P.none, i1 |-> P.i1, i2 |-> P.i2, cap |-> PAIRCAP,
+           acc |-> IF LongLens # {}
+                   THEN [k \in 1..25 |-> LET a == LongIdx[((k - 1) \div 5) + 1]  b == LongIdx[((k - 1) % 5) + 1] IN <<a, b, PR_IndicesAccepts(n, a, b)>>]
+                   ELSE [k \in 1..(MaxN + 2) * (MaxN + 2) |->
+                          LET a == (k - 1) \div (MaxN + 2)  b == (k - 1) % (MaxN + 2) IN <<a, b, PR_IndicesAccepts(n, a, b)>>]]
 EmitReplay == (Emit /\ done) => PrintT(<<"REPLAY", ToJson(Vector)>>)
 =============================================================================
